@@ -35,6 +35,12 @@ CLAIMED = {
  "C04": ("other", "SSA must-facts (incl. flag implication through phis) + syntax-level override-table check + value flow + total-loop shape + error discipline",
    "Decides necessary structural conditions on all paths of the federating default callbacks: writes in like/announce/add/remove only where Owns(key) is (true,nil) for the key locked/read/written; the override table maps each func(ctx, vocab.T) to exactly the default for T; the wrapped application callback of the right name runs last, after the default effect succeeded, and its result is returned; Follow stores/delivers nothing unless OnFollow≠DoNothing and an object equals this inbox's actor (monotone search), updates followers only for auto-accept, builds Accept/Reject per setting with actor/object/to from the right sources and new ids before delivery; documented insertion ends; Create fetches IRIs; every object is processed; fresh properties are installed.",
    "Exact stored values are not decided; Database.Owns is the application's. Trusted: go/types, go/ssa, go/ast, checker engines E1/E2/E4/E9.", "DESIGN.md §4 C04"),
+ "C16": ("other", "SSA must-facts + value flow + store/dominance rules on the undeliverable side channel + in-place-scan discipline + error discipline",
+   "Decides necessary structural conditions on all paths of the social default callbacks: sentinel before any effect; undeliverable is recorded (true only by block) before anything can return and PostOutbox returns its negation while still storing/listing; toTombstone copies id/formerType/deleted always and published/updated independently; deleteFn replaces the stored object by that Tombstone under its lock; Add/Remove write only owned targets with the documented mutator and Remove's scan examines every element without skipping; Like prepends every object id to the outbox actor's liked collection; Update writes ToType(stored ⊕ supplied) back; wrapped callback last.",
+   "Exact member sets after Update and JSON-null deletion are value-level and not decided. Trusted: go/types, go/ssa, go/ast, checker engines E1/E2/E4/E9.", "DESIGN.md §4 C16"),
+ "C20": ("other", "SSA value identity (same slice digested and written) + dominance order + def-chain rules for the header derivation + in-place-filter discipline",
+   "Decides on all paths of GetInbox/GetOutbox/handler that the bytes written are the very slice passed to addResponseHeaders, built as json.Marshal(streams.Serialize(x)) from the value the application supplied, after dedupe (inbox only) / recursive scrub (handler), with headers ≺ status ≺ body; that addResponseHeaders derives Content-Type, Date (clock.Now().UTC().Format(RFC 7231)+GMT) and Digest (SHA-256= base64.Std(sha256.Sum256(param))) through exactly those callees; that dedupeOrderedItems removes exactly later occurrences and examines every element; missing value ⇒ ErrNotFound with nothing written.",
+   "Serialisation fidelity itself is C01's. Trusted: go/types, go/ssa, checker engines E1/E2/E4.", "DESIGN.md §4 C20"),
 }
 NOT_YET = {}
 ALL = ["C%02d" % i for i in range(1, 21)]
